@@ -22,8 +22,9 @@ pub fn build(ds: &[EDelta]) -> Vec<SEntry> {
     let mut out: Vec<SEntry> = Vec::with_capacity(ds.len());
     let mut next_id = 0u64; // first id not covered
     for d in ds {
-        let id = next_id.saturating_add(d.gap);
         let span = u64::from(d.run.max(1));
+        // top bit set: place the run so that it ends (gap & 0xffff) ids before the end of the tile-id domain
+        let id = if d.gap >> 63 == 1 { ID_END.saturating_sub(span + (d.gap & 0xffff)).max(next_id) } else { next_id.saturating_add(d.gap) };
         if id >= ID_END || id + span > ID_END {
             break;
         }
@@ -53,7 +54,14 @@ fn small_or_wide_u32() -> impl Strategy<Value = u32> {
 
 pub fn edelta() -> impl Strategy<Value = EDelta> {
     (
-        prop_oneof![6 => 0u64..3, 2 => 0u64..1000, 1 => prop_oneof![Just(127u64), Just(128), Just(16384), Just(1 << 32), Just(1 << 56)], 1 => 0u64..(1 << 50)],
+        prop_oneof![
+            24 => 0u64..3,
+            8 => 0u64..1000,
+            4 => prop_oneof![Just(127u64), Just(128), Just(16384), Just(1 << 32), Just(1 << 56)],
+            4 => 0u64..(1 << 50),
+            // the last ids of the domain (the very last one most of the time)
+            1 => prop_oneof![3 => Just(1u64 << 63), 1 => (0u64..3).prop_map(|k| (1u64 << 63) | k)],
+        ],
         prop_oneof![4 => Just(1u32), 1 => Just(0u32), 3 => 2u32..50, 1 => small_or_wide_u32()],
         small_or_wide_u32(),
         prop_oneof![5 => Just(0u8), 3 => Just(1u8), 1 => Just(2u8), 1 => Just(3u8), 1 => Just(4u8)],
